@@ -127,12 +127,14 @@ def build(shape: tuple[str, ...], uid: str) -> tuple[dict, dict]:
                     node["enum"] = node["enum"] + [None]
             e = dict(e, nullable=True)
         elif w == "nullable31":
-            if isinstance(node.get("type"), str) and "enum" not in node:
+            # three 3.1 spellings, chosen by the shape itself (deterministic): a type list, anyOf [X, null], oneOf [X, null]
+            spelling = (len(shape) + LEAVES.index(shape[-1]) + depth) % 3
+            if isinstance(node.get("type"), str) and "enum" not in node and spelling == 0:
                 node = dict(node, type=[node["type"], "null"])
-            elif "enum" in node and node.get("type") == "string":
+            elif "enum" in node and node.get("type") == "string" and spelling == 0:
                 node = dict(node, type=["string", "null"], enum=node["enum"] + [None])
             else:
-                node = {"anyOf": [node, {"type": "null"}]}
+                node = {("oneOf" if spelling == 2 else "anyOf"): [node, {"type": "null"}]}
             e = dict(e, nullable=True)
         else:
             pn = f"inner{uid}d{depth}x"
@@ -166,9 +168,16 @@ def document(shapes: list[tuple[int, tuple[str, ...]]]) -> Doc:
     for i, sh in shapes:
         node, e = build(sh, str(i))
         name = f"S{i}"
-        schemas[name] = {"type": "object", "properties": {f"p{i}x": node}}
-        sexp[name] = {"kind": "object", "parents": [], "props": {f"p{i}x": dict(e, required=False)}, "shape": expr(sh)}
+        req = i % 3 == 1     # every third shape is a REQUIRED property (nullable and required are independent)
+        schemas[name] = {"type": "object", "properties": {f"p{i}x": node}, **({"required": [f"p{i}x"]} if req else {})}
+        sexp[name] = {"kind": "object", "parents": [], "props": {f"p{i}x": dict(e, required=req)}, "shape": expr(sh)}
         mf[name] = features(sh)
+        if i % 7 == 3:
+            # the model also allows additional properties (typed or free): its declared field must still be there
+            typed = i % 14 == 3
+            schemas[name]["additionalProperties"] = {"type": "integer"} if typed else True
+            sexp[name]["extras"] = {"kind": "integer", "format": None} if typed else {"kind": "free_form", "variant": "any"}
+            mf[name] = mf[name] + ["rich_object_with_extras"]
         paths[f"/s{i}"] = {"get": {"operationId": f"getS{i}", "tags": ["shapes"], "responses": {
             "200": {"description": "ok", "content": {"application/json": {"schema": ref(name)}}}}}}
     v = "3.1.0" if any("nullable31" in sh or sh[-1] == "type_list_str_int" for _, sh in shapes) else "3.0.3"
